@@ -288,6 +288,9 @@ func registerTime() {
 					return z0 && z1
 				}
 			}
+			if op == token.EQL {
+				return fr.i.equalsV(nil, instantOf(a[0]), instantOf(a[1]))
+			}
 			return fr.i.binopV(op, instantOf(a[0]), instantOf(a[1]))
 		}
 	}
@@ -316,6 +319,19 @@ func registerTime() {
 		}
 		return instantOf(a[0])
 	}
+	intrinsics["(time.Time).Unix"] = func(fr *frame, a []value) value {
+		// floor(instant / 1e9)
+		if !isClockTime(a[0]) {
+			panic(unsupported("Unix on a non-clock time"))
+		}
+		i := fr.i
+		ns := instantOf(a[0])
+		q := i.binopV(token.QUO, ns, int64(1000000000))
+		r := i.binopV(token.REM, ns, int64(1000000000))
+		neg := i.andV(i.binopV(token.LSS, ns, int64(0)), i.notV(i.equalsV(nil, r, int64(0))))
+		return i.iteV(neg, i.binopV(token.SUB, q, int64(1)), q)
+	}
+	intrinsics["(time.Time).UTC"] = func(fr *frame, a []value) value { return a[0] }
 	intrinsics["(time.Time).String"] = func(fr *frame, a []value) value { return "<time>" }
 	intrinsics["(time.Duration).String"] = func(fr *frame, a []value) value { return "<duration>" }
 	intrinsics["time.Unix"] = func(fr *frame, a []value) value {
